@@ -69,6 +69,20 @@ CLAIMED["C05"] = dict(
     technique="TLA+ spec + TLC model checking; replay of TLC-enumerated inputs; result/trace validation by TLC",
 )
 
+CLAIMED["C04"] = dict(
+    category="model_checking",
+    text="Trace_Search.tla, on top of ClassDB.tla, judges every rule insertion of real searches (word universe: plain strategies, "
+         "factories of strategies, factories of ready rules with foreign parents, symmetries, inferral chains, verification of "
+         "atoms and non-atoms; default / memory-saving / forest rule databases; scripted time-slicings): the start label carries "
+         "the rule's parent class, end labels are the children's labels in order, the rule is what a pack strategy produces when "
+         "re-applied, omitted children are truly empty and declared possibly empty; labels are a bijection (ClassDB clauses run on "
+         "the same stream).",
+    design_ref="DESIGN.md 3/C04",
+    note="Trusted: TLC; the session recorder (wraps ruledb.add, _rules_from_strategy, ClassDB methods). The ClassDB model it rests "
+         "on is model-checked under C15. Re-application of the strategy is executed by the harness and compared by TLC.",
+    technique="TLA+ spec (ClassDB + rule-insertion clauses); trace validation of recorded searches by TLC",
+)
+
 NOT_YET = {}
 
 ALL = ["C%02d" % i for i in range(1, 21)]
